@@ -7,16 +7,17 @@
 enum { M_PREOP = 2, M_OP = 3, M_STOP = 4 };
 static struct { uint8_t mode, producing, pending_rx, pend_val, p8, cnt2 /* SYNCs counted by the type-2 TPDO #3 */; uint32_t cobid /* stored 1005h */, cycle /* stored 1006h in ticks*1000 us */; uint16_t rem; } M;
 static uint32_t USPT;   /* microseconds per tick */
+static int INH;
 
 static const uint32_t ID_VALS[] = { 0x80u, 0x81u, 0x40000080u, 0x40000081u };
 static const uint32_t CY_TICKS_X2[] = { 0, 2, 4, 6, 1 };   /* period in half ticks: 0, 1, 2, 3 ticks and half a tick (below resolution) */
 enum { E_ID0 = 0, E_CY0 = 4, E_F80 = 9, E_F81, E_F7F, E_START, E_STOP, E_PREOP, E_RESET, E_TICK, E_GETERR, E_RPDO_A, E_RPDO_B, E_LOCAL, E_N };
 
-static const char *cfg_name(int c) { static const char *const n[] = { "1kHz 1005h=80h 1006h=0", "1kHz 80h/2 ticks", "1kHz producer 40000080h/2 ticks", "1kHz producer 40000081h/3 ticks", "10kHz producer 40000080h/2 ticks", "1kHz producer bit set, 1006h=0 at start-up" }; return n[c]; }
+static const char *cfg_name(int c) { static const char *const n[] = { "1kHz 1005h=80h 1006h=0", "1kHz 80h/2 ticks", "1kHz producer 40000080h/2 ticks", "1kHz producer 40000081h/3 ticks", "10kHz producer 40000080h/2 ticks", "1kHz producer bit set, 1006h=0 at start-up", "1kHz 80h/2 ticks, synchronous TPDOs with an inhibit time of 2 ms" }; return n[c]; }
 
 static int build(int cfg)
 {
-    static const uint32_t ID0[] = { 0x80u, 0x80u, 0x40000080u, 0x40000081u, 0x40000080u, 0x40000080u }; static const uint32_t CYT[] = { 0, 2, 2, 3, 2, 0 };   /* cfg 5: the usual EDS default - producer bit set, period 0: production has to start with the first valid 1006h write */
+    static const uint32_t ID0[] = { 0x80u, 0x80u, 0x40000080u, 0x40000081u, 0x40000080u, 0x40000080u, 0x80u }; static const uint32_t CYT[] = { 0, 2, 2, 3, 2, 0, 2 };   /* cfg 5: the usual EDS default - producer bit set, period 0: production has to start with the first valid 1006h write */
     nc_defaults();
     NC.freq = cfg == 4 ? 10000 : 1000; USPT = 1000000u / NC.freq;
     NC.sync = 1; NC.sync_id = ID0[cfg]; NC.sync_cycle = CYT[cfg] * USPT;
@@ -27,6 +28,10 @@ static int build(int cfg)
     NC.n_tpdo = tl + 1; NC.tpdo[0].present = 1; NC.tpdo[0].cobid = 0x40000181u; NC.tpdo[0].type = 1; NC.tpdo[0].nmap = 1; NC.tpdo[0].map[0] = NC_MAP(0x2111, 0, 16);
     /* a second synchronous TPDO, number 3 and type 2: "every SYNC advances EACH synchronous PDO's schedule exactly once" */
     NC.tpdo[tl].present = 1; NC.tpdo[tl].cobid = 0x40000481u; NC.tpdo[tl].type = 2; NC.tpdo[tl].nmap = 1; NC.tpdo[tl].map[0] = NC_MAP(0x2110, 0, 8);
+    /* cfg 6: the synchronous TPDOs own inhibit timers - one-shot timers that come and go next to the producer's cyclic one (timer ids are re-used); how the
+     * inhibit time interacts with SYNC-driven transmission is not C16's business: at most one frame per TPDO and step is demanded there */
+    INH = (cfg == 6);
+    if (INH) { NC.tpdo[0].inhibit = 20; NC.tpdo[tl].inhibit = 20; }
     nc_build();
     (void)CONodeGetErr(&Node);
     memset(&M, 0, sizeof M);
@@ -110,8 +115,9 @@ static int step(int e)
             mc_fail("sync-unexpected-frame", "frame %03X (DLC %d) sent on '%s' with 1005h=%08X", f->id, f->dlc, ev_name(e), M.cobid); return MC_OK;
         }
         if (nsync != expect_sync) { mc_fail(nsync < expect_sync ? "sync-missing" : "sync-unexpected", "%d SYNC frame(s) produced on '%s', expected %d (producing=%d period=%u half ticks, %u tick(s) to go, mode %d)", nsync, ev_name(e), expect_sync, M.producing, M.cycle, M.rem, M.mode); return MC_OK; }
-        if (ntp3 != expect_tpdo3) { mc_fail("sync-tpdo-reaction", "%d frame(s) of the type-2 TPDO #3 on '%s', expected %d (SYNC count %d, mode %d, 1005h=%08X)", ntp3, ev_name(e), expect_tpdo3, M.cnt2, M.mode, M.cobid); return MC_OK; }
-        if (ntp != expect_tpdo) { mc_fail("sync-tpdo-reaction", "%d synchronous TPDO frame(s) on '%s', expected %d (mode %d, 1005h=%08X)", ntp, ev_name(e), expect_tpdo, M.mode, M.cobid); return MC_OK; }
+        if (INH) { if (ntp > 1 || ntp3 > 1) { mc_fail("sync-tpdo-reaction", "%d / %d frames of the synchronous TPDOs in one step", ntp, ntp3); return MC_OK; } }
+        else if (ntp3 != expect_tpdo3) { mc_fail("sync-tpdo-reaction", "%d frame(s) of the type-2 TPDO #3 on '%s', expected %d (SYNC count %d, mode %d, 1005h=%08X)", ntp3, ev_name(e), expect_tpdo3, M.cnt2, M.mode, M.cobid); return MC_OK; }
+        if (!INH && ntp != expect_tpdo) { mc_fail("sync-tpdo-reaction", "%d synchronous TPDO frame(s) on '%s', expected %d (mode %d, 1005h=%08X)", ntp, ev_name(e), expect_tpdo, M.mode, M.cobid); return MC_OK; }
     }
     if (M.pending_rx == 2) {               /* a frame buffered before an NMT change: applying it at the next SYNC in OPERATIONAL or dropping it are both admissible */
         if (P8 != M.p8 && P8 == M.pend_val) { M.p8 = P8; M.pending_rx = 0; }
@@ -121,5 +127,5 @@ static int step(int e)
     return MC_OK;
 }
 
-static const mc_harness H = { "C16", "c16", 6, cfg_name, build, ev_name, step, 6, 8 };
+static const mc_harness H = { "C16", "c16", 7, cfg_name, build, ev_name, step, 6, 8 };
 int main(int argc, char **argv) { return mc_main(argc, argv, &H); }
